@@ -233,7 +233,7 @@ def run(ctx):
         elif v != 0:
             ctx.violation({"kind": "GROUP BY + ORDER BY + HAVING + LIMIT through the planner disagrees with Exec.execute_tail", "case": c})
     es = T.htable(["-mode", "e2esweep", "-n", 2 if ctx.tier == "thorough" else 1, "-seed", ctx.seed], timeout=1800)
-    ctx.cov["statement_size_sweep"] = T.check_e2e_sweep(ctx, es, ("having",))
+    ctx.cov["statement_size_sweep"] = T.check_e2e_sweep(ctx, es, ("having", "having_lt", "having_notlast"))
     ctx.cov["statement_size_sweep_note"] = "statements over graphs of 13..4099 (thorough: ..16385) triples, result compared with the spec in Python, not evaluated in Coq"
     ctx.cov["cells_rendering_checked"] = T.check_renderings(
         ctx, [c["rows"] for c in exprs] + [c["base"].get("rows") for c in e2e] + [c["res"].get("rows") for c in e2e] +
